@@ -549,7 +549,14 @@ class Executor:
         raise Unsupported('tuple * symbolic int')
       return [(p, VTuple(l.items * n))]
     if isinstance(l, VInf) or isinstance(r, VInf):
-      raise Unsupported('arithmetic on inf')
+      # IEEE: finite / inf = 0 ; inf +- finite = inf  (all that metric_learn does with an infinite hyper-parameter)
+      if isinstance(op, ast.Div) and isinstance(r, VInf) and not isinstance(l, VInf):
+        return [(p, VReal(0))]
+      if isinstance(op, (ast.Add, ast.Sub)) and isinstance(l, VInf) and not isinstance(r, VInf):
+        return [(p, l)]
+      if isinstance(op, ast.Add) and isinstance(r, VInf) and not isinstance(l, VInf):
+        return [(p, r)]
+      raise Unsupported('arithmetic on inf (line %s)' % getattr(node, 'lineno', '?'))
     a, b = self.num(l), self.num(r)
     if a is None or b is None:
       raise Unsupported('binop %s on %r, %r (line %s)' % (type(op).__name__, l, r, getattr(node, 'lineno', '?')))
@@ -635,6 +642,9 @@ class Executor:
     if isinstance(base, VStr) and attr in ('format', 'join'):
       return [(p, VBoundExt(base, attr))]
     if isinstance(base, VOpaque):
+      oa = getattr(self.lib, 'opaque_attr', {}).get((base.what.split(':')[0], attr))
+      if oa is not None:
+        return [(p, oa())]
       return [(p, VBoundExt(base, attr))]
     if isinstance(base, VBoundExt) and isinstance(base.recv, VOpaque):
       return [(p, VOpaque(base.recv.what + '.' + base.name + '.' + attr))]
@@ -766,7 +776,11 @@ class Executor:
     return [(p, VExc(c.name, tuple(args)))]
 
   def _is_exception_class(self, name):
-    return name in BUILTIN_EXC or self.prog.is_subclass(name, 'Exception')
+    if name in BUILTIN_EXC:
+      return True
+    if name in self.prog.classes:
+      return any(c in BUILTIN_EXC or c in S._EXC_PARENTS for c in self.prog.classes[name].mro[1:])
+    return False
 
   def bind(self, fn, args, kwargs, p, module, bound=None):
     """python argument binding -> env dict; defaults evaluated in the defining module"""
